@@ -146,3 +146,27 @@ Proof.
   exists sqlite_dialect, (in_impl (LTuple [1%N; 2%N]) KNull OIn), [VTuple [SInt 1; SInt 1]], (fun _ => SInt 1).
   exact literal_nulltype_tuple_refuted.
 Qed.
+
+(* ---- the rendered binds are exactly the list: as many placeholders as values, the same values in the
+   same order, for EVERY length (no padding, truncation or de-duplication) ---- *)
+From SAV.sql Require Import InListCloseProofs InListLeepProofs.
+Theorem bound_values_exact d b vals :
+  vals <> [] ->
+  (all_scalar vals = true -> tuple_branch b vals = false ->
+   exists tu repl, leep d b vals = Ok (tu, repl) /\
+     map snd tu = map (fun v => match v with VScalar s => s | VTuple _ => SNull end) vals /\
+     length tu = length vals /\ repl = bind_items d tu) /\
+  (forall k, all_tuple k vals = true -> tuple_branch b vals = true ->
+   exists tu repl, leep d b vals = Ok (tu, repl) /\
+     map snd tu = concat (map value_row vals) /\ length tu = (length vals * k)%nat).
+Proof.
+  intros Hne. split.
+  - intros Hs Hb. rewrite (leep_scalar d b vals Hne Hs Hb). cbv zeta. eexists _, _. split; [reflexivity|].
+    rewrite tu_scalar_snd. split; [reflexivity|]. split; [|reflexivity].
+    unfold tu_scalar. rewrite map_length, enum_from_length. apply map_length.
+  - intros k Ht Hb. rewrite (leep_tuple d b vals k Hne Ht Hb). cbv zeta. eexists _, _. split; [reflexivity|].
+    rewrite concat_map, blocks_snd. split; [reflexivity|].
+    rewrite <- (map_length snd), concat_map, blocks_snd.
+    pose proof (all_tuple_len k vals Ht) as Hl. rewrite <- (map_length value_row vals).
+    induction Hl as [|te ts Hte Hl IH]; [reflexivity|]. cbn [concat map length]. rewrite app_length, IH, Hte. lia.
+Qed.
